@@ -847,6 +847,21 @@ func ruleTreeSearchCost(c *Ctx, r *R) {
 				}
 			})
 			good = inLoop && desc
+			if !good && !inLoop {
+				// the same descent written as recursion: the function calls itself on children[idx] of this very search
+				instrs(fn, func(b *ssa.BasicBlock, i int, in ssa.Instruction) {
+					rc, ok := in.(*ssa.Call)
+					if !ok || staticCallee(&rc.Call) == nil || origin(staticCallee(&rc.Call)) != origin(fn) {
+						return
+					}
+					for _, a := range rc.Call.Args {
+						ap := path(a)
+						if strings.Contains(ap, ".children[") && strings.Contains(ap, "searchNode") {
+							good = true
+						}
+					}
+				})
+			}
 		}
 		r.ok(good, name+"|one-search-per-level", fn.Pos(), "a lookup must call searchNode once per level and descend into children[idx] of that result")
 	}
